@@ -567,3 +567,12 @@ Definition tH_of (a : natt) : tg := match a_tgh a with Some (_, t) => t | None =
 (** what a node of the ITS read back from GML looks like: hcount 0, aromatic False, atom_map = node id *)
 Definition gml_node (n : N) (e : str) (q q' : Z) : natt :=
   NA (Some e) (Some false) (Some 0) (Some q) (Some (Z.of_N n)) (Some ((e, false, 0, q), (e, false, 0, q'))).
+
+(** * run functions that also evaluate the vocabulary of the theorems (compared with independent Python
+      definitions by the correspondence stage, so that the predicates the theorems are stated with are tied to the
+      implementation's data as well) *)
+Definition run_hx2 (g : gr) (nodes : option (list N)) (its : bool) : tok :=
+  L [run_hx g nodes its; I (total_h g); I (total_h (h_to_explicit g nodes its)); I (total_h (h_to_implicit g));
+     tbool (h_dom (copy g)); tbool (nodupb (node_ids g))].
+Definition run_its2 (its : gr) (core reindex explicit_h : bool) : tok :=
+  L [run_its its core reindex explicit_h; tbool (its_ok (if core then get_rc its else its))].
